@@ -33,7 +33,7 @@ Clauses(e) ==
 ExpOf(e) ==
     IF e.k = "files" THEN LET fs == e["in"].files
                               g == Ge124(fs)
-                              c == Classify(fs, g) IN [valid |-> c.valid, omitted |-> c.omitted, invalid |-> c.invalid, createok |-> c.invalid = <<>>, ge124 |-> g]
+                              c == Classify(fs, g) IN [valid |-> c.valid, omitted |-> c.omitted, invalid |-> c.invalid, createok |-> c.invalid = <<>> /\ ~c.sizeerr, ge124 |-> g]
     ELSE LET es == e["in"].entries IN [valid |-> CheckZip(es, Prefix).valid, invalid |-> CheckZip(es, Prefix).invalid, sizeerr |-> CheckZip(es, Prefix).sizeerr, unzipok |-> UnzipOK(es, Prefix), tree |-> UnzipTree(es, Prefix)]
 Init == l = 1 /\ bad = {}
 Next == /\ l <= Len(Trace)
